@@ -272,7 +272,9 @@ class DirectedGraphNetwork(object):
             for hole in holes:
                 add_segs.extend(hole.segments)
         split_seg = cls._intersect_segments(split_segments, add_segs, tolerance)
-        split_seg = cls._remove_segments_outside_boundary(split_seg, boundary, tolerance)
+        split_seg = cls._remove_segments_outside_boundary(
+            split_seg, boundary, tolerance, holes)
+        split_seg = cls._remove_dangling_segments(split_seg, dg)
         if len(split_seg) == 0:  # none of the segments are inside the shape
             return dg
 
@@ -874,7 +876,7 @@ class DirectedGraphNetwork(object):
         return split_segments
 
     @staticmethod
-    def _remove_segments_outside_boundary(segments, boundary, tolerance):
+    def _remove_segments_outside_boundary(segments, boundary, tolerance, holes=None):
         """Remove LineSegment2D that are outside the boundary of the parent shape.
 
         This can be used to clean up the result after intersection of segments.
@@ -887,6 +889,9 @@ class DirectedGraphNetwork(object):
                 the result.
             tolerance: The tolerance for distinguishing whether skeleton points lie
                 outside the boundary.
+            holes: An optional list of Polygon2D for the holes of the shape. Segments
+                that lie inside one of them or along one of their edges will be
+                removed from the result.
 
         Returns:
             A list of LineSegment2D objects with segments removed that outside
@@ -895,10 +900,53 @@ class DirectedGraphNetwork(object):
         clean_segments = []
         for seg in segments:
             p1, p2 = seg.p1, seg.p2
-            if boundary.point_relationship(p2, tolerance) >= 0 and \
-                    boundary.point_relationship(p1, tolerance) >= 0:
-                clean_segments.append(seg)
+            if boundary.point_relationship(p2, tolerance) < 0 or \
+                    boundary.point_relationship(p1, tolerance) < 0:
+                continue
+            # both ends of a segment can touch the boundary while the segment itself
+            # crosses a concavity, runs through a hole or lies along an edge;
+            # the segments were split at every edge so the middle point decides
+            mid_pt = seg.midpoint
+            if boundary.point_relationship(mid_pt, tolerance) != 1:
+                continue
+            if holes is not None and any(
+                    hole.point_relationship(mid_pt, tolerance) != -1 for hole in holes):
+                continue
+            clean_segments.append(seg)
         return clean_segments
+
+    @staticmethod
+    def _remove_dangling_segments(segments, dg):
+        """Remove LineSegment2D with an end that is connected to nothing else.
+
+        A segment with an end that is neither a node of the graph (a point of the
+        boundary or the holes) nor the end of another segment cannot take part in
+        splitting the shape. It only leads the search for cycles into a dead end.
+
+        Args:
+            segments: A list of LineSegment2D to be filtered.
+            dg: The DirectedGraphNetwork of the boundary and holes to which the
+                segments will be added.
+
+        Returns:
+            A list of LineSegment2D without the dangling segments.
+        """
+        tol = dg._tolerance
+        segments = list(segments)
+        while len(segments) != 0:
+            seg_keys = [(coordinates_hash(seg.p1, tol), coordinates_hash(seg.p2, tol))
+                        for seg in segments]
+            end_count = {}
+            for keys in seg_keys:
+                for key in keys:
+                    end_count[key] = end_count.get(key, 0) + 1
+            connected = [
+                seg for seg, keys in zip(segments, seg_keys)
+                if all(dg.node_exists(k) or end_count[k] > 1 for k in keys)]
+            if len(connected) == len(segments):
+                break  # every remaining segment is connected at both ends
+            segments = connected
+        return segments
 
     def __repr__(self):
         """Represent PolygonDirectedGraph."""
